@@ -194,8 +194,8 @@ def capture(ctx, report, folder):
             core = c[5:-1] if c.startswith("not (") and c.endswith(")") else c
             if re.fullmatch(rf"isinstance\({par}, NavigableString\)", c):
                 saw_kind = True
-            elif re.search(r"\.(search|match|fullmatch)\(", core) and not c.startswith("not ("):
-                saw_match = True
+            elif re.fullmatch(r".*\.(search|match|fullmatch)\([^()]*\)", core) and not c.startswith("not ("):
+                saw_match = True            # the pattern's own result, nothing derived from it
             elif c.startswith("not (") and re.fullmatch(rf"{par}\.name (==|in) .*", core):
                 pass            # an earlier branch of the dispatch on element names
             else:
